@@ -450,6 +450,10 @@ MUTANTS += [
     m("schema-dim2index-from-end", ["C04", "C06", "C12"], R, "            return self.dims.index(dim)\n", "            return len(self.dims) - 1 - self.dims.index(dim)\n"),
     m("schema-array2tuple-reversed", ["C01", "C02"], U, "return array.item() if array.size == 1 else tuple(array.tolist())", "return tuple(array.tolist())[::-1]"),
     m("schema-centre-is-pmin", ["C12", "C13"], R, "        return self.center\n", "        return self.pmin\n"),
+    # maximum neighbouring-cell angle
+    m("c19-max-angle-same-channel", ["C19"], T, "        max_angles[(*slices_two, (2 * i) + 1)] = neighbouring_cell_angle(", "        max_angles[(*slices_two, (2 * i))] = neighbouring_cell_angle("),
+    m("c19-max-angle-shift", ["C19"], T, "            slice(1, None) if i == j else slice(None)\n            for j in range(field.mesh.region.ndim)", "            slice(2, None) if i == j else slice(None)\n            for j in range(field.mesh.region.ndim)"),
+    m("c19-max-angle-min", ["C19"], T, "max_angles = max_angles.max(axis=-1, keepdims=True)", "max_angles = max_angles.min(axis=-1, keepdims=True)"),
     # Newell's auxiliary functions
     m("c19-newell-f-sign", ["C19"], T, "        + 1 / 6 * (2 * x2 - y2 - z2) * np.sqrt(x2 + y2 + z2)\n", "        + 1 / 6 * (2 * x2 - y2 + z2) * np.sqrt(x2 + y2 + z2)\n"),
     m("c19-newell-g-third", ["C19"], T, "        - x * y * np.sqrt(x2 + y2 + z2) / 3\n", "        - x * y * np.sqrt(x2 + y2 + z2) / 2\n"),
